@@ -164,9 +164,9 @@ pub fn generate(thorough: bool, rng: &mut Rng, ops: &mut Vec<String>, stats: &mu
         let mut unmarked_ids: Vec<[u8; 32]> = Vec::new();
         let mut marked_ids: Vec<[u8; 32]> = Vec::new();
         let mut all_packs: Vec<String> = Vec::new();
-        let max_blobs = if big { 60 } else { 8 };
+        let max_blobs = if big { 30 } else { 8 };
         for _ in 0..n_files {
-            let np = if rng.chance(1, 10) { 0 } else { 1 + rng.below(if big { 30 } else { 6 }) };
+            let np = if rng.chance(1, 10) { 0 } else { 1 + rng.below(if big { 20 } else { 6 }) };
             let nd = if rng.chance(1, 2) { 0 } else { 1 + rng.below(3) };
             let mut p = Vec::new();
             for _ in 0..np {
